@@ -273,7 +273,9 @@ inline std::vector<Real> gridvars(size_t n, const std::string &pfx = "g") {
 // high-order variants, where symbolic points raised to high powers are out of reach while coefficients (and x) stay symbolic
 inline std::vector<Real> gridpoints(size_t n, const std::string &pfx = "g") {
 #ifdef FIXED_GRID
-  static const long long NUM[] = {-7, -1, 2, 9, 11, 7, 45, 13}, DEN[] = {3, 2, 5, 4, 2, 1, 4, 1};
+  static const long long NUM[] = {-7, -1, 2, 9, 11, 7, 45, 13, 27, 44, 16, 86, 37, 20, 64, 22, 91, 25, 51, 27},
+                         DEN[] = {3, 2, 5, 4, 2, 1, 4, 1, 2, 3, 1, 5, 2, 1, 3, 1, 4, 1, 2, 1};
+  if (n > 20) throw std::logic_error("fixed grid has 20 points");
   std::vector<Real> g;
   for (size_t k = 0; k < n; k++) g.push_back(Real::frac(NUM[k], DEN[k]));
   (void)pfx;
@@ -297,6 +299,21 @@ inline std::vector<std::pair<size_t, size_t>> windows(size_t n, bool with_pointl
   for (size_t s = 0; s < n; s++)
     for (size_t e = s + 1; e <= n; e++)
       if (with_pointlike || e > s + 1) w.push_back({s, e});
+  return w;
+}
+
+// deterministic sample of `count` windows of an n-point grid for the large-size variants (-DLARGE=<n>): the empty window, the whole
+// grid, windows flush with either end, and pseudo-random ones (fixed LCG, so every run explores the same set)
+inline std::vector<std::pair<size_t, size_t>> windows_sample(size_t n, size_t count, unsigned long seed = 1) {
+  std::vector<std::pair<size_t, size_t>> w{{0, 0}, {0, n}, {0, n / 2 + 1}, {n / 2, n}, {n - 2, n}, {0, 2}, {n / 2, n / 2 + 1}};
+  unsigned long st = seed * 6364136223846793005UL + 1442695040888963407UL;
+  auto rnd = [&](size_t m) { st = st * 6364136223846793005UL + 1442695040888963407UL; return (size_t)((st >> 33) % m); };
+  while (w.size() < count) {
+    size_t s = rnd(n), e = s + 1 + rnd(n - s);
+    std::pair<size_t, size_t> c{s, e};
+    if (std::find(w.begin(), w.end(), c) == w.end()) w.push_back(c);
+  }
+  w.resize(std::min(count, w.size()));
   return w;
 }
 
